@@ -110,6 +110,17 @@ int include_parse(AsmContext *asm_context)
 printf("including file %s.\n", token);
 #endif
 
+  static int include_depth = 0;
+
+  if (include_depth >= MAX_NESTED_INCLUDES)
+  {
+    printf("Error: .include nested more than %d deep at %s:%d\n",
+      MAX_NESTED_INCLUDES,
+      asm_context->tokens.filename,
+      asm_context->tokens.line);
+    return -1;
+  }
+
   write_list_file = asm_context->write_list_file;
   asm_context->write_list_file = 0;
 
@@ -163,7 +174,9 @@ printf("including file %s.\n", token);
     asm_context->tokens.filename = token;
     asm_context->tokens.line = 1;
 
+    include_depth++;
     ret = asm_context->assemble();
+    include_depth--;
 
     asm_context->tokens.line = oldline;
   }
